@@ -35,11 +35,13 @@ func (s *Stream) safeSendToDataChan(data map[string]any) bool {
 	if atomic.LoadInt32(&s.stopped) == 1 {
 		return false
 	}
+	verifYieldPoint("send.lock")
 	s.dataChanMux.RLock()
 	defer s.dataChanMux.RUnlock()
 	if s.dataChan == nil {
 		return false
 	}
+	verifYieldPoint("send.send")
 	select {
 	case s.dataChan <- data:
 		return true
@@ -50,6 +52,7 @@ func (s *Stream) safeSendToDataChan(data map[string]any) bool {
 
 // expandDataChannel dynamically expands data channel capacity
 func (s *Stream) expandDataChannel() {
+	verifYieldPoint("expand.enter")
 	// Use atomic operation to check if expansion is in progress, prevent concurrent expansion
 	if !atomic.CompareAndSwapInt32(&s.expanding, 0, 1) {
 		s.log.Debug("Channel expansion already in progress, skipping")
@@ -66,6 +69,7 @@ func (s *Stream) expandDataChannel() {
 	// from PerformanceConfig.BufferConfig — the expansion knobs are not dead.
 	buf := s.config.PerformanceConfig.BufferConfig
 	exp := s.config.PerformanceConfig.OverflowConfig.ExpansionConfig
+	verifYieldPoint("expand.read")
 	s.dataChanMux.RLock()
 	oldCap := cap(s.dataChan)
 	currentLen := len(s.dataChan)
@@ -118,6 +122,7 @@ func (s *Stream) expandDataChannel() {
 	newChan := make(chan map[string]any, newCap)
 
 	// Safely migrate data using write lock
+	verifYieldPoint("expand.wlock")
 	s.dataChanMux.Lock()
 	oldChan := s.dataChan
 
@@ -127,6 +132,7 @@ func (s *Stream) expandDataChannel() {
 
 	migratedCount := 0
 	for {
+		verifYieldPoint("expand.mig")
 		select {
 		case data := <-oldChan:
 			select {
@@ -149,6 +155,7 @@ migration_done:
 	// Atomically update channel reference
 	s.dataChan = newChan
 	s.dataChanMux.Unlock()
+	verifYieldPoint("expand.done")
 
 	s.log.Debug("Channel expansion completed: migrated %d items", migratedCount)
 }
